@@ -81,7 +81,7 @@ var setterSigma = []string{
 // VerifC05SetOneSigma: deeper windows over per-setter alphabets (the argument of host, hostname,
 // port, pathname and protocol goes through a real sub-parser).
 func VerifC05SetOneSigma() {
-	u, mu, ok := startBoth(startURLs[vnd.Pick(vnd.Param("C05.SigmaStarts", 8, 18))])
+	u, mu, ok := startBoth(startURLs[vnd.Pick(vnd.Param("C05.SigmaStarts", 8, 19))])
 	if !ok {
 		return
 	}
